@@ -23,7 +23,7 @@ import (
 	"io/ioutil"
 	"net/http"
 	"strings"
-	"sync/atomic"
+	"sync"
 
 	"github.com/golang/snappy"
 )
@@ -121,26 +121,33 @@ func CompressRequest(request *http.Request, acceptEncoding string) error {
 	return nil
 }
 
-// Wrap a reader and block all reads once Close() is called
+// Wrap a reader and block all reads once Close() is called. Close waits for a
+// read that is already in progress, so that no read of the underlying stream
+// can begin after Close has returned.
 type readBlocker struct {
 	io.Reader
-	closed uint32
+	mu     sync.Mutex
+	closed bool
 }
 
 func (r *readBlocker) Read(d []byte) (int, error) {
-	if atomic.LoadUint32(&r.closed) != 0 {
+	r.mu.Lock()
+	defer r.mu.Unlock()
+	if r.closed {
 		return 0, errors.New("stream is closed")
 	}
 	return r.Reader.Read(d)
 }
 
 func (r *readBlocker) Close() error {
+	r.mu.Lock()
+	defer r.mu.Unlock()
 	if c, ok := r.Reader.(io.Closer); ok {
 		if err := c.Close(); err != nil {
 			return err
 		}
 	}
-	atomic.StoreUint32(&r.closed, 1)
+	r.closed = true
 	return nil
 }
 
